@@ -395,11 +395,16 @@ def rule_exit_order(chk):
     var, _, _ = c04.context_var(chk)
     resets = []
     if var is not None:
-        for f, n, k, c in c04.var_uses(chk, var):
+        uses = c04.var_uses(chk, var)
+        restoring = {f for f, n, k, c in uses if k in ("reset", "set") and f is not ex and f.cls is ex.cls and f.name not in ("__enter__", "run", "context")}
+        for f, n, k, c in uses:
             if f is ex and k == "reset":
                 nn, _m = common.node_of_call(cfg, c)
                 if nn is not None:
                     resets.append(nn)
+        # a helper method of the class that restores the context counts as the reset
+        for g in restoring:
+            resets += [n for n, c, m in ctx.calls_to(ex, g)]
     ok, wit = (cfg.precedes(resets, fins) if resets else (False, None))
     chk.req(bool(resets) and ok, "C02.exit-order", "Action.__exit__:reset-before-finish", chk.where(ex),
             good="context reset precedes finish() on every path",
